@@ -1,18 +1,19 @@
 package inference
 
 var ndHarnesses = map[string]func(){
-	"Harness_C05_L1":       Harness_C05_L1,
-	"Harness_C05_L2":       Harness_C05_L2,
-	"Harness_C06":          Harness_C06,
-	"Harness_C08_Filter":   Harness_C08_Filter,
-	"Harness_C08_Rounds":   Harness_C08_Rounds,
-	"Harness_C15_FuncKeys": Harness_C15_FuncKeys,
-	"Harness_C15_VarKeys":  Harness_C15_VarKeys,
-	"Harness_C15_Stable":   Harness_C15_Stable,
-	"Harness_C04_K2":       Harness_C04_K2,
-	"Harness_C04_K3":       Harness_C04_K3,
-	"Harness_C04_K4":       Harness_C04_K4,
-	"Harness_C10_Binding":  Harness_C10_Binding,
-	"Harness_C06_Export":   Harness_C06_Export,
-	"Harness_C06_Chain":    Harness_C06_Chain,
+	"Harness_C05_L1":           Harness_C05_L1,
+	"Harness_C05_L2":           Harness_C05_L2,
+	"Harness_C06":              Harness_C06,
+	"Harness_C08_Filter":       Harness_C08_Filter,
+	"Harness_C08_Rounds":       Harness_C08_Rounds,
+	"Harness_C15_FuncKeys":     Harness_C15_FuncKeys,
+	"Harness_C15_VarKeys":      Harness_C15_VarKeys,
+	"Harness_C15_Stable":       Harness_C15_Stable,
+	"Harness_C15_StableMethod": Harness_C15_StableMethod,
+	"Harness_C04_K2":           Harness_C04_K2,
+	"Harness_C04_K3":           Harness_C04_K3,
+	"Harness_C04_K4":           Harness_C04_K4,
+	"Harness_C10_Binding":      Harness_C10_Binding,
+	"Harness_C06_Export":       Harness_C06_Export,
+	"Harness_C06_Chain":        Harness_C06_Chain,
 }
